@@ -1,3 +1,4 @@
+import PGM.Proofs.BfsRelist
 import PGM.Proofs.GMQE2EGen
 import PGM.Properties.C01E
 import PGM.Properties.C02G
@@ -24,8 +25,12 @@ The specification is the brute-force joint of `Proofs/Semantics.lean` (`joint`, 
    the generated cached `project` as fallback; the only contract left is `floyd_warshall_predecessor_and_distance` (`PathsOK`).
 4. `gen_answers_agree_on_shared_attributes` — any two answers agree after marginalising to their common attributes.
 
-Not covered here: `PathsOK` is stated on `modelTree` (the tree of `self.junction_tree` with its nodes listed in `self.cliques` order — same
-node set, same edge list as the graph handed to networkx); `save` / `load` (pickle) are not translated; `greedy_order` stays a contract
+`PathsOK` is stated on `modelTree` (the tree of `self.junction_tree` with its nodes listed in `self.cliques` order); by
+`pathsOK_generated_tree` (`Proofs/BfsRelist.lean`: the predecessor / distance read from the BFS table of a tree do not depend on the order
+its nodes are listed in) this is equivalent to the plain networkx contract on the tree object `self.junction_tree.tree` itself —
+`gen_manyMarginals_end_to_end_nx` is the theorem with the hypothesis in that form.
+
+Not covered here: `save` / `load` (pickle) are not translated; `greedy_order` stays a contract
 (`ElimOK`: any duplicate-free listing of `domain.invert(attrs)`); the stores `model.marginals = …` of inference.py are py2inf's.
 -/
 namespace PGM.C02E
@@ -438,6 +443,40 @@ theorem answer_manyMarginals (h : CallOK nx d cliques mode total pots)
         (genInit nx d cliques total mode).neighbors projections) :
     AnswerOf d pots total e.1 (fun σ => (e.2.sem σ).v) :=
   ((gen_manyMarginals_end_to_end h pred dist hpd greedy b projections hproj hg).1 e he).2.1
+
+/-- **the `PathsOK` hypothesis is the plain networkx contract on `self.junction_tree.tree`**: stated on the tree the generated
+`__init__` hands to networkx (`(genInit …).junction_tree.1`, nodes in networkx's order) it is EQUIVALENT to the statement on
+`modelTree` (the same tree with its nodes listed as `self.cliques`) — `GM.bfs_relist`: on a tree neither the predecessor nor the
+distance read from the BFS table depends on the order the nodes are listed in -/
+theorem pathsOK_generated_tree (h : CallOK nx d cliques mode total pots)
+    (pred : Clique → Clique → Clique) (dist : Clique → Clique → Nat) :
+    PathsOK (genInit nx d cliques total mode).cliques (genInit nx d cliques total mode).junction_tree.1 pred dist ↔
+    PathsOK (genInit nx d cliques total mode).cliques (modelTree nx d cliques total mode) pred dist := by
+  have hok := h.modelOK
+  have hperm := (gen_init_cliques_ok nx d cliques total mode h.dom_wf h.dom_ne h.cliques_ok h.adm).2.1
+  exact pathsOK_relist (genInit nx d cliques total mode).cliques (modelTree nx d cliques total mode)
+    (JT.treeFacts _ (Sem.isTree_of_ok hok)) (Sem.valid_of_ok hok).connected
+    (genInit nx d cliques total mode).junction_tree.1.nodes hperm.symm (fun c hc => hc) pred dist
+
+/-- **`gen_manyMarginals_end_to_end` with the contract stated on the generated tree**: `pred` / `dist` are what
+`nx.floyd_warshall_predecessor_and_distance(self.junction_tree.tree, weight=False)` returns on the tree object the generated
+`__init__` built (predecessor / number of edges on the unique path, `PathsOK` on `junction_tree.1`) -/
+theorem gen_manyMarginals_end_to_end_nx (h : CallOK nx d cliques mode total pots)
+    (pred : Clique → Clique → Clique) (dist : Clique → Clique → Nat)
+    (hpd : PathsOK (genInit nx d cliques total mode).cliques (genInit nx d cliques total mode).junction_tree.1 pred dist)
+    (greedy : Dom → List Clique → List Attr → List Attr) (b : Bool) (projections : List (List Attr))
+    (hproj : ∀ proj ∈ projections, proj.Nodup ∧ ∀ a ∈ proj, a ∈ d.attrs)
+    (hg : ∀ proj ∈ projections, ElimOK d proj (greedy d ((genInit nx d cliques total mode).cliques ++ [proj]) (d.invert proj))) :
+    (∀ e ∈ GMQ.calculateManyMarginals pred dist (genProjectC nx d cliques mode total pots greedy b)
+        (genInit nx d cliques total mode).domain (genInit nx d cliques total mode).cliques (genCache nx d cliques mode total pots)
+        (genInit nx d cliques total mode).neighbors projections,
+      e.2.dom.attrs = e.1 ∧
+      (∀ σ, d.Valid σ → (e.2.sem σ).v = total.v * marginal d pots e.1 σ / partition d pots) ∧
+      sumOver d e.1 (fun _ => 0) (fun σ => (e.2.sem σ).v) = total.v) ∧
+    (∀ proj ∈ projections, proj ∈ (GMQ.calculateManyMarginals pred dist (genProjectC nx d cliques mode total pots greedy b)
+        (genInit nx d cliques total mode).domain (genInit nx d cliques total mode).cliques (genCache nx d cliques mode total pots)
+        (genInit nx d cliques total mode).neighbors projections).map Prod.fst) :=
+  gen_manyMarginals_end_to_end h pred dist ((pathsOK_generated_tree h pred dist).mp hpd) greedy b projections hproj hg
 
 end many
 
